@@ -465,7 +465,13 @@ func viewSeed(r *rand.Rand, e gen.Env, name string, l int) []byte {
 		if r.Intn(2) == 0 { // the "router advertisement"-like layout the view documents
 			n := r.Intn(4)
 			// (the view's IsValid demands type 137: it compares with the ICMPv6 redirect constant)
-			b = append([]byte{[]byte{137, 137, 5}[r.Intn(3)], 0, 0, 0, byte(n), byte([]int{4, 10, 2}[r.Intn(3)]), 0, 30}, gen.RandBytes(r, n*40)...)
+			sz := []int{4, 10, 2, 1, 3}[r.Intn(5)]
+			tail := n * 40
+			if r.Intn(2) == 0 {
+				tail = n * sz * 4 // a table of exactly the announced size: nothing behind the last entry
+			}
+			b = append([]byte{[]byte{137, 137, 5}[r.Intn(3)], 0, 0, 0, byte(n), byte(sz), 0, 30}, gen.RandBytes(r, tail)...)
+			b = b[:len(b):len(b)]
 		}
 	case "ICMP6RouterSolicitation":
 		b = gen.ICMP6Msg(r, e, "rs", src, dst, mac)
